@@ -62,10 +62,12 @@ local macro "lab_tac" n:ident b:ident I:term:max J:term:max q:ident hb:ident P:t
     refine b12 (P := $P) $b $hb ?_ ?_ ?_ ?_ ?_ ?_ ?_ ?_ ?_ ?_ ?_ ?_ <;>
     simp only [nbZ, ofOffsets, ofIndex, seamRule, ncpRule, eqrRule, spcRule, baseCell, next, prev, oppo, Src.eval] <;>
     simp <;>
-    · rintro rfl
+    · intro hq; subst hq
+      refine ⟨?_, ?_, ?_, ?_⟩ <;>
       simp only [InQ, cardinals, dA, dC, List.mem_cons, List.not_mem_nil, or_false, exists_eq_or_imp, exists_eq_left,
-        Glue, Nat.reduceDiv, Nat.reduceMod, Nat.reduceAdd, Nat.reduceSub]
-      refine ⟨?_, ?_, ?_, ?_⟩ <;> omega))
+        Glue, Nat.reduceDiv, Nat.reduceMod, Nat.reduceAdd, Nat.reduceSub, true_and, and_true, false_and, and_false,
+        false_or, true_or, or_true, not_true_eq_false, not_false_eq_true] <;>
+      omega))
 
 section
 variable (n b i j : Nat) (q : HashParts) (hn : 1 ≤ n) (hn2 : n ≤ 4294967296) (hb : b < 12) (hi : i < n) (hj : j < n)
